@@ -240,6 +240,11 @@ def jobs_c16(tier, known):
     for seed in ("S14", "S15", "S16"):
         for mode in ("d1f1", "d0f0"):
             js.append(mesh_job("C16", "hex", seed, cfgstr(mode), A_DELC, 1, A_PERM, 2, caps="8,16,12,5,0,6,%d" % (6 if tier == "quick" or seed == "S16" else 7), bcfg="fast", deadline=dl, known=known))
+    # the same with a pool of 11 halffaces = the freed surface + other free quad halffaces (outer halffaces of the neighbouring hex),
+    # all 6-tuples WITHOUT repetition (332,640 per freed hex): invalid lists that mix two hexes
+    for seed, modes in (("S15", ("d0f0",) if tier == "quick" else ("d0f0", "d1f1")),) + ((("S16", ("d0f0",)),) if tier == "thorough" else ()):
+        for mode in modes:
+            js.append(mesh_job("C16", "hex", seed, cfgstr(mode), A_DELC, 1, A_PERM, 2, caps="8,16,12,5,0,6,%d" % (11 if seed == "S15" else 10), bcfg="fast", deadline=dl, known=known))
     return js
 
 
